@@ -194,6 +194,19 @@ def main():
     rp5.replay(hvsrobj.Instance(nf, "N", "N", fscale=0.002))
     rp5.validate_pending()
     run.notes["replay_fine_grid"] = rp5.stats
+    # ---- the zero guards, decided: grid step 1/64 Hz (all arithmetic on equal / symmetric peak sets is exact in binary, so the
+    #      property tier does not leave "== 0" open - constant ZeroExact), the library's logger at the level a user's process has
+    #      (no DEBUG trace is requested by this replayer): all peaks equal after a pass, mean fn = mean-curve peak
+    exz = hvsrobj.cfg_text(1, 4, nf, "Alpha8d", "Ranges8", "NSetC", "MaxItsC", "InitZero", sthr="SThrDyadic", export=True, nxt="NextC06", zero_exact=True,
+                           props=["FdwraStep"])
+    resz, graphz = hvsrobj.export_graph(exz, "C06-exportz", {}, timeout=6000)
+    run.add_tlc(resz, "HvsrObject NextC06 from window sets that reach the zero guards, SThr = 0.64 steps, ZeroExact (FdwraStep) export")
+    constsz = consts.replace("SThr <- SThrHalf", "SThr <- SThrDyadic").replace(f"NW = {nw}", "NW = 4") + "  ZeroExact = TRUE\n"
+    rpz = hvsrobj.Replayer(run, hvsrpy, graphz, ALPHA8D, 1, 4, nf, constsz, focus={"Fdwra", "Init"})
+    for inst in (hvsrobj.Instance(nf, "N", "N", fscale=1.0 / 64), hvsrobj.Instance(nf, "N", "L", fscale=1.0 / 64, q=2.0)):
+        rpz.replay(inst)
+    rpz.validate_pending()
+    run.notes["replay_zero_guards"] = rpz.stats
     # ---- lognormal fn: code -> spec, criterion with exp() left open ------------------------------
     ranges = [[-99, -99], [-99, 12], [4, -99], [4, 14]]
     lh = LogFnHook(hvsrpy, rs, ranges, per_state=2 if quick else 4)
